@@ -55,6 +55,11 @@ def rmerge(a, b):
                 Ite(a.c, a.ne, b.ne))
 
 
+def _toks(items):
+    """the token-trace items ('tok', skip start, token start, end, state)"""
+    return tuple(it for it in items if len(it) == 5 and it[0] == 'tok')
+
+
 class Obj(dict):
     """reference model object: {'_cls': name, '_span': (start, end), attr: value}"""
 
@@ -206,7 +211,9 @@ class RefPeg:
                     continue
                 val = ()
                 if self.concrete and cc is True:
-                    val = mkval(p, end)
+                    # ('tok', skip start, token start, token end, state): the
+                    # whitespace/comment range in front of every matched token
+                    val = mkval(p, end) + (('tok', pos, p, end, st),)
                 self.add(out, end, ROut(cc, 0, val, end > p))
         return out
 
@@ -297,7 +304,7 @@ class RefPeg:
             return out
         if k == 'sup':
             for end, o in self.ev(e[1], pos, st, inc).items():
-                self.add(out, end, ROut(o.c, 0, (), o.ne))
+                self.add(out, end, ROut(o.c, 0, tuple(it for it in o.val if it[0] == 'tok'), o.ne))
             return out
         if k == 'ref':
             return self._ref(e[1], pos, st, inc)
@@ -424,11 +431,12 @@ class RefPeg:
             if kind == 'common' and self.fpindex is not None:
                 fp = Add(fp, self.fpindex.w(('obj', name)))
             if self.concrete and o.c is True:
-                val = self._close(name, kind, o.val, pos, end)
+                val = self._close(name, kind, o.val, pos, end) + _toks(o.val)
             self.add(out, end, ROut(o.c, fp, val, o.ne))
         return out
 
     def _close(self, name, kind, items, pos, end):
+        """value of a rule invocation (token-trace items are carried by the caller)"""
         if kind == 'common':
             obj = Obj()
             obj['_cls'] = name
@@ -490,6 +498,7 @@ class RefPeg:
                     v, span = self._value_of(rhs, o.val)
                     if span is not None:
                         val = (('asg', attr, op, True if op == '?=' else v, span[0], span[1]),)
+                    val = val + _toks(o.val)
                 # an assignment records a value when its right-hand side matched
                 # something (an empty match leaves the attribute untouched)
                 if w:
@@ -522,14 +531,17 @@ class RefPeg:
                         val = o0.val
                         if self.concrete and o0.c is True and mc is True and d.c is True:
                             v, span = self._value_of(rhs, d.val)
-                            val = o0.val + ((v, span),)
+                            val = o0.val + ((v, span),) + _toks(d.val)
                         self.add(nxt, end, ROut(And(o0.c, mc, d.c), Add(Add(o0.fp, d.fp), w), val, True))
                     stop = Or(stop, And(mc, noelem))
                 if not (op == '+=' and it == 0):
                     val = ()
                     if self.concrete and o0.val:
-                        val = (('asg', attr, op, [v for v, _ in o0.val], o0.val[0][1][0],
-                                o0.val[-1][1][1]),)
+                        pairs = [x for x in o0.val if len(x) == 2]
+                        if pairs:
+                            val = (('asg', attr, op, [v for v, _ in pairs], pairs[0][1][0],
+                                    pairs[-1][1][1]),)
+                        val = val + _toks(o0.val)
                     self.add(out, p, ROut(And(o0.c, stop), o0.fp, val, o0.ne))
             cur = nxt
             it += 1
@@ -556,7 +568,10 @@ class RefPeg:
         for end, o in res.items():
             for p, c in self.skip(end, self.st0, False).items():
                 if p == self.n:
-                    self.add(out, p, ROut(And(o.c, c), o.fp, o.val, o.ne))
+                    val = o.val
+                    if self.concrete and o.c is True and c is True:
+                        val = val + (('tok', end, p, p, self.st0),)
+                    self.add(out, p, ROut(And(o.c, c), o.fp, val, o.ne))
         return out
 
     def accept_fp(self):
@@ -566,6 +581,15 @@ class RefPeg:
         for o in res.values():
             fp = Ite(o.c, o.fp, fp)
         return acc, fp
+
+    def tokens(self):
+        """concrete mode: [(skip start, token start, token end, state)] of the
+        accepting derivation (None if rejected)"""
+        assert self.concrete
+        for o in self.outcomes().values():
+            if o.c is True:
+                return [it[1:] for it in o.val if it[0] == 'tok']
+        return None
 
     def model(self):
         """concrete mode: reference model (Obj / value) or None if rejected"""
